@@ -853,6 +853,13 @@ func (x *Exec) havocModifies(st *State, env *Env, con *Contract, name string) {
 }
 
 func (x *Exec) havocAll(st *State) {
+	// the dynamic type of an object is fixed at its allocation: no call can change it, so the type array survives
+	keepTyp, hadTyp := st.heap["typ"]
+	defer func() {
+		if hadTyp {
+			st.heap["typ"] = keepTyp
+		}
+	}()
 	st.gen = x.newGen()
 	if len(st.localRefs) > 0 {
 		if st.preHavoc == nil {
